@@ -429,4 +429,52 @@ Section ThreadsProofs.
       rewrite <- Hl, nth_error_app2, Nat.sub_diag by lia. reflexivity.
   Qed.
 
+  (* ------------------------------------------------------------------ the RequestBody layer *)
+
+  Variable field_min : nat.
+  Variable field_max : option nat.
+
+  Notation http_chat := (Threads.http_chat A eqA sep dot dash M pat use_prefix_check thread_prefix min_len
+                                           field_min field_max base single default_id load_ok llm).
+  Notation validate := (Threads.validate A M field_min field_max).
+
+  (* an HTTP request is either refused by the field constraints (422: nothing happens) or is
+     exactly a chat_completion call on the validated body, whose thread id - if any - has a
+     length within the field bounds *)
+  Theorem http_chat_cases :
+    forall st h st' o,
+      http_chat st h = (st', o) ->
+      (st' = st /\ o_reply A M o = R422 /\ o_loads A M o = [] /\ o_used A M o = None)
+      \/ exists rq, validate h = Some rq /\ chat st rq = (st', o)
+                    /\ r_thread A M rq = h_thread A M h
+                    /\ r_messages A M rq = h_messages A M h
+                    /\ (forall t, r_thread A M rq = Some t ->
+                                  field_min <= length t
+                                  /\ match field_max with Some m => length t <= m | None => True end).
+  Proof.
+    intros st h st' o H. unfold Threads.http_chat in H.
+    destruct (validate h) as [rq|] eqn:Ev.
+    - right. exists rq. split; [reflexivity|]. split; [exact H|].
+      unfold Threads.validate in Ev.
+      destruct (match h_config_id A M h, h_config_ids A M h with
+                | Some _, Some _ => None
+                | Some (c :: i), None => Some [c :: i]
+                | Some [], None => Some []
+                | None, Some l => Some l
+                | None, None => Some []
+                end) as [ids|]; [|discriminate].
+      destruct (h_thread A M h) as [t|] eqn:Et.
+      + destruct (Nat.leb field_min (length t)) eqn:E1; simpl in Ev; [|discriminate].
+        destruct field_max as [m|].
+        * destruct (Nat.leb (length t) m) eqn:E2; [|discriminate].
+          inversion Ev; subst; simpl. split; [reflexivity|]. split; [reflexivity|].
+          intros t0 Ht0. inversion Ht0; subst.
+          apply Nat.leb_le in E1. apply Nat.leb_le in E2. auto.
+        * inversion Ev; subst; simpl. split; [reflexivity|]. split; [reflexivity|].
+          intros t0 Ht0. inversion Ht0; subst. apply Nat.leb_le in E1. auto.
+      + inversion Ev; subst; simpl. split; [reflexivity|]. split; [reflexivity|].
+        intros t0 Ht0. discriminate.
+    - left. inversion H; subst. simpl. auto.
+  Qed.
+
 End ThreadsProofs.
